@@ -482,3 +482,116 @@ Fixpoint drun (st : dstate) (l : list N) : option (dstate * list N) :=
 
 Definition unescape_bytes (l : list N) : option (list N) :=
   match drun DNormal l with Some (DNormal, o) => Some o | _ => None end.
+
+(* ---------- Part 4: json.Marshal of the operation, on bytes ---------- *)
+(* The POST body and its Content-Length: the GraphQLRequest struct is written with its fields
+   in declaration order (query, operationName and variables omitted when empty), maps with
+   their keys in byte order, strings through the escaper of Part 3, numbers with the literal
+   they carry (json.Number of the client body; the text encoding/json prints for the float64
+   of a configured default), no white space. *)
+
+Fixpoint bytes_ltb (a b : list N) : bool :=
+  match a, b with
+  | _, [] => false
+  | [], _ :: _ => true
+  | x :: a', y :: b' => if (x <? y)%N then true else if (y <? x)%N then false else bytes_ltb a' b'
+  end.
+
+Fixpoint insert_member (kv : list N * list N) (l : list (list N * list N)) : list (list N * list N) :=
+  match l with
+  | [] => [kv]
+  | kv' :: r => if bytes_ltb (fst kv') (fst kv) then kv' :: insert_member kv r else kv :: l
+  end.
+Definition sort_members (l : list (list N * list N)) : list (list N * list N) :=
+  fold_right insert_member [] l.
+
+Definition quoted (s : list N) : list N := (34%N :: escape_bytes s ++ [34%N])%list.
+
+Fixpoint join_bytes (sep : N) (l : list (list N)) : list N :=
+  match l with
+  | [] => []
+  | [x] => x
+  | x :: r => (x ++ sep :: join_bytes sep r)%list
+  end.
+
+Definition member_bytes (kv : list N * list N) : list N := (quoted (fst kv) ++ 58%N :: snd kv)%list.
+
+Fixpoint encode_json (v : json) : list N :=
+  match v with
+  | JNull => [110; 117; 108; 108]%N
+  | JBool true => [116; 114; 117; 101]%N
+  | JBool false => [102; 97; 108; 115; 101]%N
+  | JNum lit => bytes_of lit
+  | JStr s => quoted (bytes_of s)
+  | JArr l => (91%N :: join_bytes 44 ((fix go (l : list json) : list (list N) :=
+                                         match l with [] => [] | x :: r => encode_json x :: go r end) l)
+               ++ [93%N])%list
+  | JObj m => (123%N :: join_bytes 44 (map member_bytes (sort_members
+                 ((fix go (m : list (string * json)) : list (list N * list N) :=
+                     match m with [] => [] | (k, x) :: r => (bytes_of k, encode_json x) :: go r end) m)))
+               ++ [125%N])%list
+  | JOther _ => [63%N]
+  end.
+
+Definition encode_body (g : gql) : list N :=
+  (123%N :: join_bytes 44
+     ([member_bytes (bytes_of "query", quoted (bytes_of (g_query g)))]
+      ++ (if str_eqb (g_name g) "" then []
+          else [member_bytes (bytes_of "operationName", quoted (bytes_of (g_name g)))])
+      ++ (match g_vars g with
+          | [] => []
+          | _ => [member_bytes (bytes_of "variables", encode_json (JObj (g_vars g)))]
+          end))
+   ++ [125%N])%list.
+
+Definition body_length (g : gql) : Z := Z.of_nat (List.length (encode_body g)).
+
+(* the length the model predicts for the request body of input i (no oracle) *)
+Definition predicted_len (i : input) : Z :=
+  match gql_request (b_opts (i_backend i)) (i_params i) (i_body i) with
+  | Some g => body_length g
+  | None => 0%Z
+  end.
+
+Definition model_len (i : input) : outcome := model i (predicted_len i).
+
+(* the bytes of the POST body *)
+Definition model_body (i : input) : option string :=
+  match gql_request (b_opts (i_backend i)) (i_params i) (i_body i), o_method (b_opts (i_backend i)) with
+  | Some g, TPost => Some (bs (encode_body g))
+  | _, _ => None
+  end.
+
+(* ---------- Part 5: GetOptions - spelling of type and method ---------- *)
+(* opt.Type = strings.ToLower(type), opt.Method = strings.ToUpper(method); a method other than
+   GET / POST becomes POST; the middleware serves the types "query" and "mutation" and is a
+   pass-through for every other type.  strings.ToLower / ToUpper are Unicode aware: besides
+   A-Z / a-z, the runes whose simple case mapping is an ASCII letter are U+0130 (-> i) and
+   U+212A KELVIN SIGN (-> k) for ToLower, U+017F LONG S (-> S) and U+0131 DOTLESS I (-> I) for
+   ToUpper; every other rune keeps non-ASCII bytes and so cannot complete one of the words. *)
+
+Fixpoint lower_bytes (l : list N) : list N :=
+  match l with
+  | 196%N :: 176%N :: r => 105%N :: lower_bytes r
+  | 226%N :: 132%N :: 170%N :: r => 107%N :: lower_bytes r
+  | b :: r => (if in_range 65 90 b then (b + 32)%N else b) :: lower_bytes r
+  | [] => []
+  end.
+
+Fixpoint upper_bytes (l : list N) : list N :=
+  match l with
+  | 197%N :: 191%N :: r => 83%N :: upper_bytes r
+  | 196%N :: 177%N :: r => 73%N :: upper_bytes r
+  | b :: r => (if in_range 97 122 b then (b - 32)%N else b) :: upper_bytes r
+  | [] => []
+  end.
+
+Definition norm_type (t : string) : option optype :=
+  let l := bs (lower_bytes (bytes_of t)) in
+  if str_eqb l "query" then Some TQuery else if str_eqb l "mutation" then Some TMutation else None.
+
+Definition norm_method (m : string) : transport :=
+  if str_eqb (bs (upper_bytes (bytes_of m))) "GET" then TGet else TPost.
+
+(* for inputs whose type is one of the two served ones *)
+Definition type_of (t : string) : optype := match norm_type t with Some ty => ty | None => TQuery end.
